@@ -396,6 +396,16 @@ class Tr:
             else:
                 self.st.add_ne(a - b)
             return
+        if is_call(x, "contains") and len(x[2]) == 2 and tv is True:
+            # `(a..b).contains(&v)` / `(a..=b).contains(&v)` found true: a <= v and v < b / v <= b
+            r_ = look(x[2][0])
+            if r_[0] == "call" and last_seg(r_[1]) == "new" and "RangeInclusive" in r_[1] and len(r_[2]) == 2:
+                r_ = ("agg", "std::ops::RangeInclusive", "RangeInclusive", tuple(r_[2]))
+            if r_[0] == "agg" and r_[1].split("<")[0] in ("std::ops::Range", "std::ops::RangeInclusive") and len(r_[3]) == 2:
+                v_ = self.lin(x[2][1])
+                self.st.add_le(self.lin(r_[3][0]) - v_)
+                self.st.add_le(v_ - self.lin(r_[3][1]) + Lin.const(0 if "Inclusive" in r_[1] else 1))
+                return
         pe = self.pair_equalities(x)
         if pe is not None and tv is not None:
             eq_call = last_seg(x[1]) == "eq"
@@ -670,6 +680,14 @@ class PanicAnalysis:
             desc = "%s.%s(%s)" % (summarize(args[0], 40), last_seg(path), summarize(args[1], 60))
             is_str = "str" in path or "String" in path
             self.record(fn, "call", "at-most-len|%s" % desc[:100], desc, loc, e[1], ok and not is_str, "" if ok and not is_str else ("str split: char boundary not covered by a lemma" if is_str else "mid <= len not entailed by the path's guards"))
+            return
+        if kind == "index-lt-len" and last_seg(path) in ("remove", "swap_remove") and len(args) == 2 and "Vec" in path:
+            # v.remove(i): i < len(v) -- e.g. `while !v.is_empty() { v.remove(0) }`
+            L = tr.length(args[0])
+            m = tr.lin(args[1])
+            ok = st.entails_le(m - L + Lin.const(1)) and st.entails_le(m.scale(-1))
+            desc = "%s.%s(%s)" % (summarize(args[0], 40), last_seg(path), summarize(args[1], 60))
+            self.record(fn, "call", "index-lt-len|%s" % desc[:100], desc, loc, e[1], ok, "" if ok else "index < len not entailed by the path's guards")
             return
         if kind == "nonzero-arg":
             n = tr.lin(args[1])
